@@ -23,7 +23,11 @@ ASSUMPTIONS = ["EM header layout: byte0 machine code 6 (little endian), byte3 dt
                "data from byte 512 with x fastest", "values equal means numeric equality of float32 values (-0.0 == 0.0)"]
 
 CLASSES = ["zero_rows", "identity", "reversed", "rotated", "random_perm", "nan_holes", "nan_after_construction", "extreme_values",
-           "n1", "int_dtypes", "odd_index", "dict_order"]
+           "n1", "int_dtypes", "odd_index", "dict_order", "block_sizes"]
+# particle counts at which blocked / batched rewrites of the writer or reader go wrong (2**k - 1, 2**k, 2**k + 1)
+BLOCK_N = [63, 64, 65, 127, 129, 255, 257, 1023, 1025, 4095, 4097, 8193, 65535, 65536, 65537, 65538, 16385, 32769]
+BLOCK_N_THOROUGH = BLOCK_N + [131071, 131073, 196609, 262145]
+FMAX = float(np.finfo(np.float32).max)
 CANON = gens.COLS
 
 
@@ -54,7 +58,7 @@ def in_domain_table(df):
     except Exception:
         return False
     fin = v[~np.isnan(v)]
-    return bool(np.all(np.isfinite(fin)) and (fin.size == 0 or np.abs(fin).max() <= 3.4028234e38))
+    return bool(np.all(np.isfinite(fin)) and (fin.size == 0 or np.abs(fin).max() <= FMAX))
 
 
 def first_diff(a, b):
@@ -129,19 +133,28 @@ def gen(ctx, i, cls):
         n = int(rng.integers(1, 301 if not big else 2000))
     if cls == "n1":
         n = 1
+    if cls == "block_sizes":
+        pool_n = BLOCK_N_THOROUGH if big else BLOCK_N
+        n = pool_n[(i // len(CLASSES)) % len(pool_n)]
     df = gens.motl_table(rng, n, tomos=int(rng.integers(1, 4)), signed=bool(rng.integers(0, 2)))
     perm = np.arange(20)
     if cls == "reversed":
         perm = perm[::-1]
     elif cls == "rotated":
         perm = np.roll(perm, int(rng.integers(1, 20)))
-    elif cls in ("random_perm", "nan_holes", "extreme_values", "dict_order", "nan_after_construction") or (cls in ("n1", "int_dtypes", "odd_index") and rng.random() < 0.7):
+    elif cls in ("random_perm", "nan_holes", "extreme_values", "dict_order", "nan_after_construction", "block_sizes") or (cls in ("n1", "int_dtypes", "odd_index") and rng.random() < 0.7):
         perm = rng.permutation(20)
     valcls = "normal"
     if cls == "extreme_values":
         valcls = "extreme"
         pool = np.array([2.0 ** 24 + 1, 2.0 ** 25 + 3, -(2.0 ** 24) - 1, 123456789.0, 3.4e38, -3.4e38, 1e-40, -1e-42, 1e-50,
-                         -0.0, 0.1, 1.0 / 3.0, 16777217.0, 1.17549435e-38, 65504.0, 65520.0, 70000.123, 1e-8])
+                         -0.0, 0.1, 1.0 / 3.0, 16777217.0, 1.17549435e-38, 65504.0, 65520.0, 70000.123, 1e-8,
+                         # the top of the float32 range: the maximum, the two float32 values below it, float64 values between them
+                         FMAX, -FMAX, float(np.nextafter(np.float32(FMAX), np.float32(0))), -float(np.nextafter(np.float32(FMAX), np.float32(0))),
+                         float(np.nextafter(np.nextafter(np.float32(FMAX), np.float32(0)), np.float32(0))), FMAX * (1 - 2.0 ** -26),
+                         -FMAX * (1 - 2.0 ** -25), 3.402823e38, -3.402823e38, 3.4028233e38,
+                         # the bottom: smallest normal, largest / smallest subnormal, values that round to 0
+                         float(np.finfo(np.float32).tiny), -float(np.finfo(np.float32).tiny) * (1 - 2.0 ** -24), 1.4e-45, -1.4e-45, 7e-46, 6e-46, 2.5e-46])
         for c in CANON:
             m = rng.random(n) < 0.4
             df.loc[m, c] = rng.choice(pool, int(m.sum()))
